@@ -110,7 +110,8 @@ Lemma w_F4_ok : wf_history w_F4 = true /\ guard_F4 w_F4 = true /\
   m_answer (run w_F4) 0 "/d" = Some 0 /\ m_answer (fresh (current w_F4)) 0 "/d" = Some 1.
 Proof. vm_compute. repeat split; reflexivity. Qed.
 
-Lemma w_F4p_ok : guard_F4 w_F4p = true /\ snd (t_step no_fix (t_run w_F4p) (Delete 0)) = Some EPanic.
+Lemma w_F4p_ok : wf_history (w_F4p ++ [Delete 0]) = true /\ guard_F4 w_F4p = true /\
+  snd (t_step no_fix (t_run w_F4p) (Delete 0)) = Some EPanic.
 Proof. vm_compute. repeat split; reflexivity. Qed.
 
 Lemma w_F5_ok : wf_history w_F5 = true /\ guard_F5 w_F5 = true /\
